@@ -1,8 +1,246 @@
-import Isotp.Process
+import Isotp.Proofs.Tx
 /-
-  C17 — property theorems (see DESIGN.md §6). Helper lemmas live in Isotp/Proofs.
+  C17 — "Generator payloads are streamed lazily and size mismatches are caught."
+  Property theorems (see DESIGN.md §6). Helper lemmas live in Isotp/Proofs/Tx.lean.
+
+  Reading guide (definitions in Isotp/Proofs/Tx.lean).
+  * `Req` (model): `size` = declared size, `src` = what the generator will still yield, `consumed` = pull counter.
+  * `Fresh r0 p`: `r0` has pulled nothing yet, declares `|p|` values, and what its generator yields agrees with `p`
+    as far as it goes. Every request `send` builds is `Fresh` for `completion src size` (`send_any_generator`):
+    what the generator yields, cut at `size` or completed to `size`. `Full r0 p`: it yields at least `size` values.
+  * `TxInv0 s r0 p k`: `k` frames of `p` have been handed to the CAN layer and the transfer is going on.
+  * `pulled s`: pull counter of the request in flight; `firstPull`: values needed for frame 0; `Spec.carried tc n k`:
+    payload bytes carried by the first `k` frames.
+  * `BadGen s s' r`: `BadGeneratorError` reported, `complete(False)` logged, FSM idle. `Failed`: `complete(False)` logged.
 -/
 namespace Isotp.C17
-open Isotp State
+open Isotp Isotp.Spec Isotp.State Isotp.Proofs
+
+/-! ## concrete instances for the non-vacuity examples -/
+
+def exCfg : Cfg := {}
+def exHalf : Half := { mode := .n11, txid := some 0x123, rxid := some 0x456, ta := none, sa := none, ae := none,
+                       physId := 0, funcId := 0, rxOnly := false, txOnly := false }
+def exAddr : Addr := { tx := exHalf, rx := exHalf }
+/-- a generator that yields 30 values while 20 are declared -/
+def exLong : Req := { id := 7, size := 20, src := (List.range 30).map UInt8.ofNat, instr := true }
+/-- a generator that yields only 9 values while 20 are declared: enough for the First Frame, not for CF 1 -/
+def exShort : Req := { id := 8, size := 20, src := (List.range 9).map UInt8.ofNat, instr := true }
+/-- a generator that yields only 3 values while 5 are declared (Single Frame) -/
+def exShortSf : Req := { id := 9, size := 5, src := [1, 2, 3], instr := true }
+def exState (r : Req) : State := { State.init exCfg exAddr with txQueue := [r] }
+def exFc : CanMsg := { id := 0x456, ext := false, data := [0x30, 0x00, 0x00] }
+
+theorem exLong_fresh : Fresh exLong ((List.range 20).map UInt8.ofNat) := ⟨⟨rfl, by decide, by decide, rfl⟩, rfl⟩
+theorem exShort_fresh : Fresh exShort (completion exShort.src 20) := ⟨⟨rfl, by decide, by decide, rfl⟩, rfl⟩
+theorem exLive (r : Req) : Live (exState r) (exState r) := ⟨rfl, rfl, rfl, (by intro h; cases h), QLog.refl _⟩
+
+/-! ## E1. `FiniteByteGenerator.consume` -/
+
+/-- One `consume(n, enforce_exact)` call: the values are taken in order from the front of what the generator still
+    yields (each at most once: the rest is `src.drop n`), at most `n` of them (`min n |src|`), the returned data — if
+    any — are exactly those values, and the declared size / identity do not change. -/
+theorem consume_bounds (r : Req) (n : Nat) (e : Bool) :
+    (r.consume n e).1.src = r.src.drop n ∧
+    (r.consume n e).1.consumed = r.consumed + min n r.src.length ∧
+    (r.consume n e).1.consumed - r.consumed ≤ n ∧
+    (r.consume n e).1.size = r.size ∧ (r.consume n e).1.id = r.id ∧
+    (∀ d, (r.consume n e).2 = some d → d = r.src.take n ∧ d.length = (r.consume n e).1.consumed - r.consumed) := by
+  obtain ⟨h1, h2, h3, h4, h5⟩ := consume_spec r n e
+  refine ⟨h1, h2, by rw [h2]; omega, h3, h4, ?_⟩
+  intro d hd
+  obtain ⟨h6, h7⟩ := h5 d hd
+  exact ⟨h6, by rw [h7, h2]; omega⟩
+
+/-- Asking for no more than `remaining_size()` never pulls beyond the declared size. -/
+theorem consume_within_size (r : Req) (n : Nat) (e : Bool) (hle : r.consumed ≤ r.size) (hn : n ≤ r.remaining) :
+    (r.consume n e).1.consumed ≤ r.size :=
+  consume_within r n e hle hn
+
+/-- When the generator ends before `n` values: `BadGeneratorError` (`none`) with `enforce_exact`, otherwise the values
+    that were left are returned and the generator is flagged depleted. -/
+theorem consume_generator_ended (r : Req) (n : Nat) (e : Bool) (hle : r.consumed ≤ r.size) (hn : n ≤ r.remaining)
+    (hs : r.src.length < n) :
+    (r.consume n e).2 = (if e then none else some r.src) ∧ (r.consume n e).1.depletedFlag = true :=
+  consume_early r n e hle hn hs
+
+example : (exLong.consume 6 true).2 = some [0, 1, 2, 3, 4, 5] ∧ (exLong.consume 6 true).1.consumed = 6 := by decide
+example : (exShortSf.consume 5 true).2 = none ∧ (exShortSf.consume 5 false).2 = some [1, 2, 3] := by decide
+
+/-! ## E2. call sites: never more than `remaining`, never beyond `size` -/
+
+/-- Every request `send` can build — any generator, any declared size — is `Fresh` for the completion of what its
+    generator yields: all the theorems below apply to it. -/
+theorem send_any_generator (s : State) (a : SendArgs) :
+    Fresh (reqOf s a) (completion a.src a.size.toNat) ∧ (completion a.src a.size.toNat).length = a.size.toNat :=
+  ⟨reqOf_fresh_any s a, completion_length _ _⟩
+
+/-- …and when the generator yields at least `size` values, that completion is just its first `size` values. -/
+theorem completion_of_long_generator (src : Bytes) (size : Nat) (h : size ≤ src.length) :
+    completion src size = src.take size :=
+  completion_full src size h
+
+/-- The first pull (`startTx`): the whole payload for a Single Frame (`n = size = remaining`), the First Frame part
+    otherwise (`n = ffRoom < size`); both are at most `remaining_size()` and at most one frame. -/
+theorem first_pull_within (c : Cfg) (a : Addr) (hv : c.valid = true) (n : Nat) :
+    firstPull (TxCfg.of c a) n ≤ n ∧ firstPull (TxCfg.of c a) n ≤ c.txDl :=
+  ⟨firstPull_le _ (valid_of c a hv) n, firstPull_le_txDl _ (valid_of c a hv) n⟩
+
+/-- `startTx` pulls exactly `firstPull` values when the generator has them (state: `Req.adv r0 firstPull` stored as the
+    active request — frame 0 emitted or parked), and otherwise pulls what is left and aborts with `BadGeneratorError`
+    without building any frame. -/
+theorem startTx_pulls (s : State) (r0 : Req) (a : Nat) (p : Bytes) (hv : s.cfg.valid = true) (hfr : Fresh r0 p)
+    (h1 : 1 ≤ p.length) (hn : p.length < 4294967296) :
+    (firstPull (TxCfg.of s.cfg s.addr) p.length ≤ r0.src.length ∧
+      Advance s (s.startTx r0 a).1 (s.startTx r0 a).2 r0 p 0) ∨
+    (r0.src.length < firstPull (TxCfg.of s.cfg s.addr) p.length ∧
+      (s.startTx r0 a).2 = none ∧ BadGen s (s.startTx r0 a).1 r0) := by
+  by_cases hen : firstPull (TxCfg.of s.cfg s.addr) p.length ≤ r0.src.length
+  · exact Or.inl ⟨hen, startTx_adv s r0 a p hv hfr h1 hn hen⟩
+  · exact Or.inr ⟨by omega, startTx_short s r0 a p hv hfr.1 hfr.2 (by omega)⟩
+
+/-- Invariant: while a transfer is queued or in flight the pull counter of the active request never exceeds its
+    declared size — values beyond `size` are never pulled (for any generator). -/
+theorem consumed_le_size (s : State) (r0 : Req) (p : Bytes) (k : Nat) (hv : s.cfg.valid = true) (hfr : Fresh r0 p)
+    (hi : TxInv0 s r0 p k) : ∀ r, s.active = some r → r.consumed ≤ r.size :=
+  TxInv0.within_size hv hfr hi
+
+/-- The invariant is established by `send` + the first pass and maintained by every pass and every other API call,
+    for any generator (`Pass`: the progress invariant holds again afterwards unless the transfer completed / failed). -/
+theorem invariant_maintained (s : State) (r0 : Req) (p : Bytes) (k : Nat)
+    (hv : s.cfg.valid = true) (hfr : Fresh r0 p) (h1 : 1 ≤ p.length) (hn : p.length < 4294967296)
+    (hexc : s.exc = none) (hfc : FcOk s) (hd : fcPass s = false) (hi : TxInv0 s r0 p k) :
+    Pass s s.processTx.1 s.processTx.2.1 r0 p k ∧ ∀ o : Op, TxInv0 (o.apply s) r0 p k :=
+  ⟨processTx_pass s r0 p k hv hfr h1 hn hexc hfc hd hi, fun o => Op.inv0 s o r0 p k hi⟩
+
+example : ∀ r, (run [.tx, .op (.rx exFc), .tx] (exState exLong)).1.active = some r → r.consumed ≤ r.size := by decide
+/-- the values beyond `size` stay in the generator -/
+example : (run [.tx, .op (.rx exFc), .tx, .tx] (exState exLong)).1.log.filter (fun e => match e with | .pull .. => true | _ => false)
+    = [.pull 7 6, .pull 7 7, .pull 7 7].reverse ∧
+    (run [.tx, .op (.rx exFc), .tx, .tx] (exState exLong)).2.map (·.data) =
+      segment (TxCfg.of exCfg exAddr) ((List.range 20).map UInt8.ofNat) := by decide
+
+/-! ## E3. laziness -/
+
+/-- The number of values pulled so far is exactly what the frames built so far carry: nothing while the request is
+    queued; the payload of the `k` frames already emitted while the transfer is in flight (no look-ahead); and, only
+    when the rate limiter parked frame 0, that single frame. -/
+theorem pulled_matches_frames (s : State) (r0 : Req) (p : Bytes) (k : Nat) (hv : s.cfg.valid = true)
+    (hfr : Fresh r0 p) (hi : TxInv0 s r0 p k) :
+    (k = 0 ∧ pulled s = 0) ∨ (k = 0 ∧ pulled s = firstPull (TxCfg.of s.cfg s.addr) p.length) ∨
+    (1 ≤ k ∧ carried (TxCfg.of s.cfg s.addr) p.length k < p.length ∧
+      pulled s = carried (TxCfg.of s.cfg s.addr) p.length k) :=
+  TxInv0.pulled_cases hv hfr hi
+
+/-- `carried` really counts payload bytes: frame `k ≥ 1` adds the length of its payload piece. -/
+theorem carried_counts_payload (tc : TxCfg) (p : Bytes) (k : Nat) (hk : 1 ≤ k) (hlt : carried tc p.length k < p.length) :
+    carried tc p.length (k + 1) = carried tc p.length k + ((p.drop (carried tc p.length k)).take (cfRoom tc)).length :=
+  carried_payload tc p k hk hlt
+
+/-- A transmit pass (progress unchanged or one more frame out) pulls at most one frame's worth of values,
+    `≤ tx_data_length`: arbitrarily large payloads need no buffering. -/
+theorem pulls_per_pass (s s' : State) (r0 : Req) (p : Bytes) (k k' : Nat) (hv : s.cfg.valid = true) (hfr : Fresh r0 p)
+    (hcfg : s'.cfg = s.cfg) (haddr : s'.addr = s.addr) (hi : TxInv0 s r0 p k) (hi' : TxInv0 s' r0 p k')
+    (hk : k' = k ∨ k' = k + 1) : pulled s' ≤ pulled s + s.cfg.txDl :=
+  pulled_step hv hfr hcfg haddr hi hi' hk
+
+example : pulled (exState exLong) = 0 ∧ pulled (run [.tx] (exState exLong)).1 = 6 ∧
+    pulled (run [.tx, .op (.rx exFc), .tx] (exState exLong)).1 = 13 := by decide
+
+/-! ## E4. generators that end early -/
+
+/-- `startTx` (`enforce_exact = True`) with a generator that cannot fill frame 0: what is left is pulled, no frame is
+    built, `BadGeneratorError` is reported, the request completed with failure and the FSM idle. -/
+theorem startTx_generator_ended (s : State) (r0 : Req) (a : Nat) (p : Bytes) (hv : s.cfg.valid = true)
+    (hfr : Fresh r0 p) (hs : r0.src.length < firstPull (TxCfg.of s.cfg s.addr) p.length) :
+    (s.startTx r0 a).2 = none ∧ BadGen s (s.startTx r0 a).1 r0 :=
+  startTx_short s r0 a p hv hfr.1 hfr.2 hs
+
+example : ((exState exShortSf).startTx exShortSf 1000).2 = none ∧
+    ((exState exShortSf).startTx exShortSf 1000).1.log =
+      [.done 9 false, .err 0 .BadGenerator, .pull 9 3] := by decide
+
+/-- `transmitCf` (`enforce_exact = False`) with a generator that cannot fill the next Consecutive Frame: either the
+    pass does nothing (STmin pacing / rate limiter), or what is left is pulled and sent in a short Consecutive Frame —
+    none if nothing was left —, then `BadGeneratorError` is reported, the request completed with failure, FSM idle. -/
+theorem transmitCf_generator_ended (s : State) (allowed : Nat) (p : Bytes) (r : Req) (rbs : Nat)
+    (hv : s.cfg.valid = true) (hact : s.active = some r) (hbs : s.remoteBs = some rbs) (hf : Feeds r p)
+    (hlt : r.consumed < p.length)
+    (hs : r.src.length < min (cfRoom (TxCfg.of s.cfg s.addr)) (p.length - r.consumed)) :
+    s.transmitCf allowed = (s, none, false) ∨
+    ((s.transmitCf allowed).2.1 =
+        (if r.src.length = 0 then none else
+          some (frameMsg s.cfg s.addr (s.addr.tx.txId .physical)
+            (padFrame (TxCfg.of s.cfg s.addr) (s.addr.tx.txPrefix ++ [u8 (0x20 + s.txSeq)] ++ r.src)))) ∧
+     BadGen s (s.transmitCf allowed).1 r) :=
+  transmitCf_short s allowed p r rbs hv hact hbs hf hlt hs
+
+/-- A data pass for any generator: the progress invariant again, or frame `k` of the reference segmentation of the
+    completed payload, or completion — which requires that the generator really yielded `size` values —, or failure. -/
+theorem pass_any_generator (s : State) (r0 : Req) (p : Bytes) (k : Nat)
+    (hv : s.cfg.valid = true) (hfr : Fresh r0 p) (h1 : 1 ≤ p.length) (hn : p.length < 4294967296)
+    (hexc : s.exc = none) (hfc : FcOk s) (hd : fcPass s = false) (hi : TxInv0 s r0 p k) :
+    Pass s s.processTx.1 s.processTx.2.1 r0 p k :=
+  processTx_pass s r0 p k hv hfr h1 hn hexc hfc hd hi
+
+/-- A generator that ends early is never completed as a shorter or padded message: for every run of API calls, either
+    the transfer is still in flight — no `complete(...)` at all has been logged since the start (`Live.log`) and the
+    frames emitted so far are frames of the reference segmentation (First Frame announcing the declared size) —, or it
+    ended at some pass with `complete(False)`. `complete(True)` is never the outcome. -/
+theorem short_generator_never_completes (s0 : State) (r0 : Req) (p : Bytes) (hv : s0.cfg.valid = true)
+    (hfr : Fresh r0 p) (hshort : r0.src.length < p.length) (h1 : 1 ≤ p.length) (hn : p.length < 4294967296)
+    (steps : List Step) (s : State) (k : Nat) (hl : Live s0 s) (hi : TxInv0 s r0 p k) :
+    (TxInv0 (run steps s).1 r0 p (k + (run steps s).2.length) ∧ Live s0 (run steps s).1 ∧ Sent s0 r0 p k (run steps s).2) ∨
+    (∃ pre post, steps = pre ++ Step.tx :: post ∧
+       TxInv0 (run pre s).1 r0 p (k + (run pre s).2.length) ∧ Live s0 (run pre s).1 ∧ Sent s0 r0 p k (run pre s).2 ∧
+       Failed (run pre s).1 (run pre s).1.processTx.1 r0) := by
+  rcases run_segment s0 r0 p hv hfr h1 hn steps s k hl hi with h | ⟨pre, post, he, h1', h2, h3, -, h5⟩
+  · exact Or.inl h
+  · rcases h5 with ⟨d, -, -, -, hfull⟩ | h5
+    · omega
+    · exact Or.inr ⟨pre, post, he, h1', h2, h3, h5⟩
+
+/-- Conversely a request can only complete successfully if its generator yielded all the declared values. -/
+theorem completion_needs_all_values (s : State) (r0 : Req) (p : Bytes) (k : Nat)
+    (hv : s.cfg.valid = true) (hfr : Fresh r0 p) (h1 : 1 ≤ p.length) (hn : p.length < 4294967296)
+    (hexc : s.exc = none) (hfc : FcOk s) (hd : fcPass s = false) (hi : TxInv0 s r0 p k)
+    (hshort : r0.src.length < p.length) :
+    (s.processTx.2.1 = none ∧ TxInv0 s.processTx.1 r0 p k ∧ Quiet s s.processTx.1) ∨
+    (∃ d, (segOf s p)[k]? = some d ∧ s.processTx.2.1 = some (msgFor s r0 p d) ∧ TxInv0 s.processTx.1 r0 p (k + 1) ∧
+      Quiet s s.processTx.1) ∨
+    Failed s s.processTx.1 r0 := by
+  rcases processTx_pass s r0 p k hv hfr h1 hn hexc hfc hd hi with h | h | ⟨d, -, -, -, -, hfull⟩ | h
+  · exact Or.inl h
+  · exact Or.inr (Or.inl h)
+  · omega
+  · exact Or.inr (Or.inr h)
+
+/-- the short generator of the example: First Frame out, then CF 1 cannot be filled: the 3 values left go out in a
+    short CF and the transfer fails -/
+example : (run [.tx, .op (.rx exFc), .tx] (exState exShort)).2.map (·.data) =
+    [[0x10, 20, 0, 1, 2, 3, 4, 5], [0x21, 6, 7, 8]] := by decide
+example : (run [.tx, .op (.rx exFc), .tx] (exState exShort)).1.log.filter (fun e => match e with | .done .. | .err .. => true | _ => false)
+    = [.done 8 false, .err 0 .BadGenerator] := by decide
+example : (run [.tx, .op (.rx exFc), .tx] (exState exShort)).1.txState = .idle := by decide
+example : exShort.src.length < (completion exShort.src 20).length := by decide
+example : TxQueued (exState exShort) exShort := ⟨rfl, rfl, [], rfl⟩
 
 end Isotp.C17
+
+#print axioms Isotp.C17.consume_bounds
+#print axioms Isotp.C17.consume_within_size
+#print axioms Isotp.C17.consume_generator_ended
+#print axioms Isotp.C17.send_any_generator
+#print axioms Isotp.C17.completion_of_long_generator
+#print axioms Isotp.C17.first_pull_within
+#print axioms Isotp.C17.startTx_pulls
+#print axioms Isotp.C17.consumed_le_size
+#print axioms Isotp.C17.invariant_maintained
+#print axioms Isotp.C17.pulled_matches_frames
+#print axioms Isotp.C17.carried_counts_payload
+#print axioms Isotp.C17.pulls_per_pass
+#print axioms Isotp.C17.startTx_generator_ended
+#print axioms Isotp.C17.transmitCf_generator_ended
+#print axioms Isotp.C17.pass_any_generator
+#print axioms Isotp.C17.short_generator_never_completes
+#print axioms Isotp.C17.completion_needs_all_values
